@@ -89,6 +89,11 @@ func (c *CVMContract) execute(st engine.State, params engine.CallParams) ([]byte
 		// Memory is expanded only after the expansion has been paid for: allocating first let an
 		// instruction with a huge memory operand exhaust the node's memory for almost no gas.
 		expandMemory(&gasMem, maybe, memNeeded)
+		if maybe.Error() != nil {
+			// The cost or the memory need of the instruction could not be computed (or the memory
+			// could not be provided): the frame fails here, before the instruction does any work.
+			return nil, maybe.Error()
+		}
 
 		switch op {
 
